@@ -191,13 +191,45 @@ def bounded_uri(run: Run):
         run._bounded_fail = {"uri": bad[0][0]}
 
 
+def proto_names(run: Run):
+    """Proto.names (the collision set handed to every address of the file): a module base name that two field types of the file - of the same message
+    or of different ones - import from different packages is a collision name, and so is a reserved module name.  Address.module_alias (proved in
+    stage 1) aliases exactly the modules in that set.  Loops carry invariants over a ghost reading of the defaultdict(set)."""
+    m = SchemaModel()
+    m.add_class("Proto", {"all_messages": "Map[Str,MessageType]", "all_enums": "Map[Str,EnumType]", "meta": "Metadata"})
+    m.classes["MessageType"]["recursive_field_types"] = "Seq[AnyType]"
+    m.classes["MessageType"]["name"] = "Str"
+    m.classes["EnumType"]["name"] = "Str"
+    m.classes["AnyType"]["ident"] = "Address"
+    m.globals["RESERVED_NAMES"] = pyv(reserved())
+    m.globals["collections"] = pyv(("module", "collections"))
+    # recorded(mods, t): the package of t is among the packages recorded for t's module name
+    m.add_spec("recorded", ["mods", "t"], "t.ident.module in mods and t.ident.package in mods[t.ident.module]")
+    inv_out = "forall(lambda i: forall(lambda t: recorded(modules, t), self.all_messages.values()[i].recursive_field_types), 0, {k})"
+    c = Contract("Proto.names", source=("gapic/schema/api.py", "Proto.names"), params={"self": "Proto"}, result="Set[Str]",
+                 locals={"answer": "Set[Str]", "modules": "Map[Str,Set[Seq[Str]]]"},
+                 ensures=["forall(lambda m1: forall(lambda m2: forall(lambda t1: forall(lambda t2: implies(t1.ident.module == t2.ident.module and "
+                          "t1.ident.package != t2.ident.package, t1.ident.module in result), m2.recursive_field_types), m1.recursive_field_types), "
+                          "self.all_messages.values()), self.all_messages.values())",
+                          "forall(lambda m1: forall(lambda t1: implies(t1.ident.module in RESERVED_NAMES, t1.ident.module in result), m1.recursive_field_types), "
+                          "self.all_messages.values())"],
+                 invariants={"for#1": ["True"],
+                             "for#2": [inv_out.format(k="_k")],
+                             "for#3": [inv_out.format(k="_k2"), "forall(lambda i: recorded(modules, m.recursive_field_types[i]), 0, _k)"]})
+    m.add_contract(c)
+    run.verify(m, c)
+    run.assume(*m.assumptions)
+    run.assume("collections.defaultdict(set): reading a missing key yields an empty set that is stored under the key; set membership of package tuples is by value")
+
+
 def run(run: Run):
     stage1(run)
+    proto_names(run)
     tables(run)
     bounded_uri(run)
     run.native_standin("props.C12_native", "scenarios",
                        "generated library with reserved words as field / nested field / flattened parameter / http path variable / body / routing field / rpc / file name")
-    run.not_decided.append("MessageType.get_field, Method._fields_mapping, HttpRule.try_parse_http_rule, API.build's file-name disambiguation and Proto.names are exercised "
+    run.not_decided.append("MessageType.get_field, Method._fields_mapping, HttpRule.try_parse_http_rule and API.build's file-name disambiguation are exercised "
                            "only by the native stand-in (varargs / nested generators / os.path are outside pyvc's subset)")
 
 
